@@ -36,7 +36,25 @@ class Table:
     def lines(self):
         return ["opt name=%s type=%d def=%s env=%s range=%s tog=%s req=%s inc=%s" % (
             hx(o["name"]), o["type"], hx(o["def"]), hx(o["env"]), hx(o["range"]), hx(o["tog"]), hx(o["req"]), hx(o["inc"]))
+            + ((" help=%s grp=%d" % (hx(o["help"]), o.get("grp", 0))) if "help" in o else "")
             for o in self.opts]
+
+    def help_op(self, rng):
+        """an esl_opt_DisplayHelp call whose textwidth sits at / next to one of the three thresholds of the layout decision"""
+        grp = rng.choice([0, 0, 1, 2, 3])
+        sel = [o for o in self.opts if grp == 0 or o.get("grp", 0) == grp]
+        ow = max([len(o["name"]) + (4 if o["type"] != 0 else 0) for o in sel] + [0])
+        def w2(o):
+            h = o.get("help", "help")
+            return 2 if h is None else len(h) + 1
+        def w1(o):
+            return w2(o) + (len(o["def"]) + 4 if o["def"] is not None else 0)
+        def w0(o):
+            return w1(o) + (len(o["range"]) + 4 if o["range"] is not None else 0)
+        indent = rng.choice([0, 2, 2, 4, 8])
+        th = [indent + ow + max([f(o) for o in sel] + [0]) for f in (w0, w1, w2)]
+        width = max(0, rng.choice(th) + rng.choice([-1, 0, 0, 1])) if rng.random() < 0.8 else rng.choice([0, 20, 40, 80, 80, 120])
+        return "help grp=%d indent=%d width=%d" % (grp, indent, width)
 
     def resolves(self, i):
         """process_optlist takes the first option having the element as a prefix: usable in lists only if that is i itself"""
@@ -140,6 +158,10 @@ class Gen:
             for fld in ("tog", "req", "inc"):
                 if o[fld] is None and rng.random() < 0.03:
                     o[fld] = ""                     # an empty list string is a legal way to say "no list"
+        if rng.random() < 0.5:
+            for o in t.opts:                   # help strings and docgroup tags (read by esl_opt_DisplayHelp only)
+                o["help"] = rng.choice([None, "", "h", "short help", "a longer help string for this option", "x" * rng.choice([30, 60, 70])])
+                o["grp"] = rng.choice([0, 1, 1, 2])
         self.stats["tables"] += 1
         self.stats["opts"] += len(t.opts)
         for o in t.opts:
@@ -312,6 +334,15 @@ class Gen:
                 if where == "cfg":
                     c = [x for x in c if x and " " not in x]
                 return rng.choice(c)
+            if rng.random() < 0.06:
+                # beyond the range of int: the range check and esl_opt_GetInteger both read the string with atoi()
+                # (= (int) strtol on glibc: clamp to long, keep the low 32 bits), so 2^32+k is the integer k for both
+                k = self.int_in(o)
+                big = rng.choice([2 ** 31 - 1, 2 ** 31, -2 ** 31, -2 ** 31 - 1, 2 ** 32 - 1, 2 ** 32, 2 ** 32 + k, -2 ** 32 + k, 2 ** 33 + k,
+                                  2 ** 63 - 1, 2 ** 63, -2 ** 63, -2 ** 63 - 1, 2 ** 64, 2 ** 64 + k, 10 ** 20 + 7, -10 ** 24, 3 * 2 ** 32 + k,
+                                  int("9" * rng.choice([10, 19, 20, 25]))])
+                self.stats["bigint"] = self.stats.get("bigint", 0) + 1
+                return str(big)
             s = str(self.int_in(o))
             q = rng.random()
             if q < 0.05 and not s.startswith("-"):
@@ -726,10 +757,94 @@ class Gen:
         self.stats["multicfg_cases"] = self.stats.get("multicfg_cases", 0) + 1
         return {"name": "mcfg%d" % cid, "ops": ops, "sticky": sticky}
 
+    # ---------------------------------------------------------------- ill-formed tables
+    DEFECTS = ["dupname", "unknown_tog", "unknown_req", "unknown_inc", "bad_default", "string_range", "unknown_type", "bad_range",
+               "no_dash", "tog_int", "empty_elem", "abbrev_elem"]
+
+    def illformed_case(self, cid):
+        """a table with one or two defects (duplicate names, option lists naming unknown options, bad defaults, a range on
+        a string option, unknown type codes, malformed range strings, names without '-'): Create returns NULL for the
+        defects it checks (names, defaults) and accepts the others, which are reported when first used; never a crash"""
+        rng = self.rng
+        t = self.table(cid)
+        self.cmd_used = set()
+        defects = rng.sample(self.DEFECTS, rng.choice([1, 1, 2]))
+        for d in defects:
+            o = rng.choice(t.opts)
+            if d == "dupname" and len(t.opts) >= 2:
+                a, b = rng.sample(range(len(t.opts)), 2)
+                t.opts[b]["name"] = t.opts[a]["name"]
+            elif d in ("unknown_tog", "unknown_req", "unknown_inc"):
+                fld = {"unknown_tog": "tog", "unknown_req": "req", "unknown_inc": "inc"}[d]
+                bad = rng.choice(["--nonesuch", "-Z", "zz", "--" + o["name"].lstrip("-") + "qq"])
+                cur = o[fld]
+                o[fld] = bad if not cur else rng.choice([cur + "," + bad, bad + "," + cur])
+            elif d == "bad_default":
+                ty = o["type"]
+                if ty == INT:
+                    v = self.int_out(o)
+                    o["def"] = rng.choice(["abc", "1.5", "", "12x"] + ([str(v)] * 3 if v is not None else []))
+                elif ty == REAL:
+                    v = self.real_out(o)
+                    o["def"] = rng.choice(["abc", "1.2.3", "", "1e"] + ([v] * 3 if v is not None else []))
+                elif ty == CHAR:
+                    v = self.char_out(o)
+                    o["def"] = rng.choice(["ab", "xyz"] + ([v] * 2 if v is not None else []))
+                else:
+                    o["type"] = INT
+                    self.fill_range_default(o)
+                    o["def"], o["range"], o["lo"], o["hi"] = "seven", None, None, None
+            elif d == "string_range":
+                o["type"], o["range"] = rng.choice([STRING, 5, 6]), rng.choice(["s<3", "n>0", ""])
+                o["def"] = rng.choice([None, None, "v"])
+            elif d == "unknown_type":
+                o["type"], o["def"] = rng.choice([7, 8, 9, 100]), rng.choice([None, None, "v"])
+            elif d == "bad_range":
+                o["type"] = rng.choice([INT, REAL, CHAR])
+                self.fill_range_default(o)             # helper bounds of the new type (values are drawn from them)
+                v = {INT: "n", REAL: "x", CHAR: "c"}[o["type"]]
+                o["range"] = rng.choice(["", "z", v, v + "=5", "5<" + v, "5=<" + v + "<7", v + ">", "=" + v + "<5", "=" + v + "<=5", "=" + v, "1<=" + v + ">=0", "<" + v + "<5",
+                                         v + "<", "0<" + v, "0<=" + v + "<", v + v + "<3", "3>" + v]).replace("5", "e" if o["type"] == CHAR else "5")
+                o["def"] = rng.choice([None, {INT: "3", REAL: "0.5", CHAR: "d"}[o["type"]]])
+            elif d == "no_dash":
+                o["name"] = rng.choice(["x", "", "n-", "+a", " -a"])
+            elif d == "tog_int":
+                ints = [x for x in t.opts if x["type"] in (INT, REAL, CHAR)]
+                if ints:
+                    o["tog"] = ints[0]["name"]
+            elif d == "empty_elem":
+                fld = rng.choice(["tog", "req", "inc"])
+                o[fld] = rng.choice([",", (o[fld] or "") + ",", "," + (o[fld] or t.opts[0]["name"]), t.opts[0]["name"] + ",," + t.opts[-1]["name"]])
+            elif d == "abbrev_elem":
+                fld = rng.choice(["tog", "req", "inc"])
+                o[fld] = t.opts[-1]["name"][:-1] if len(t.opts[-1]["name"]) > 2 else "-"
+        ops = t.lines() + ["create raw=1"]
+        sticky = len(ops)
+        nsteps = 0 if any(len(o["name"]) < 2 for o in t.opts) else rng.choice([1, 2, 3])     # (Create refuses such a name anyway)
+        for _ in range(nsteps):
+            r = rng.random()
+            if r < 0.5:
+                ops.append("cmdline w=" + ",".join(hx(w) for w in self.argv(t)))
+                self.cmd_used = set()
+            elif r < 0.75:
+                ops.append("cfg s=" + hx(self.cfg(t)))
+            else:
+                ops.append(self.env(t))
+            ops += ["dump"] if rng.random() < 0.6 else []
+            if rng.random() < 0.3:
+                ops += ["verify", "reuse"]
+        ops += ["verify", "dump"]
+        self.stats["illformed_cases"] = self.stats.get("illformed_cases", 0) + 1
+        for d in defects:
+            self.stats["ill_" + d] = self.stats.get("ill_" + d, 0) + 1
+        return {"name": "ill%d" % cid, "ops": ops, "sticky": sticky}
+
     # ---------------------------------------------------------------- a case
     def case(self, cid):
         if cid % 25 == 7:
             return self.prefix_pair_case(cid)
+        if cid % 25 in (3, 17):
+            return self.illformed_case(cid)
         if cid % 25 in (13, 21):
             return self.multicfg_case(cid)
         rng = self.rng
@@ -737,6 +852,9 @@ class Gen:
         self.cmd_used = set()                      # options already set on an earlier command line of this case
         ops = t.lines() + ["create"]
         sticky = len(ops)
+        for _ in range(rng.choice([0, 0, 0, 1, 2])):
+            ops.append(t.help_op(rng))
+            self.stats["help_ops"] = self.stats.get("help_ops", 0) + 1
         nsrc = rng.choice([1, 1, 2, 2, 3, 3, 4, 5])
         kinds = []
         spoofed = False
@@ -777,6 +895,10 @@ class Gen:
                 self.stats["cfg"] += 1
             if rng.random() < 0.4:
                 ops.append("dump")
+            last_src = ops[-2] if ops[-1] == "dump" else ops[-1]
+            if kinds[-1] in ("cmdline", "spoof") and last_src not in ("spoof s=-", "spoof s=20") and rng.random() < 0.35:
+                ops.append("spoofcmd")             # esl_opt_SpoofCmdline needs a processed command line (argv[0])
+                self.stats["spoofcmd"] = self.stats.get("spoofcmd", 0) + 1
             if rng.random() < 0.05:
                 ops += ["reuse", "dump"]           # back to defaults; a new spoofed command line is allowed again
                 spoofed = False
@@ -832,6 +954,10 @@ class C14(Prop):
         "int_range_two_sided", "int_range_lower", "int_range_upper", "range_string_two_sided", "char_range_two_sided", "real_range_two_sided", "real_range_two_sided_literal", "plain_decimal_is_real", "real_range_lower", "real_range_upper",
         "alloc_store_exact", "alloc_set_option_refines", "alloc_valloc_after_set", "alloc_source_refines", "alloc_cfg_text_args",
         "alloc_history_refines", "alloc_created_history", "alloc_reuse_is_fresh",
+        "create_on_any_table", "create_never_crashes", "create_does_not_check_lists", "unknown_name_in_toggle_list",
+        "unknown_name_in_required_list", "set_option_crash_site_unreachable",
+        "displayHelp_fails_iff", "displayHelp_output_documented", "spoofed_cmdline_lists_set_and_on_options", "spoofCmdline_never_crashes",
+        "accepted_integer_satisfies_range_as_getter_returns_it",
         "isUsed_iff", "isDefault_of_default_setter", "not_default_has_setter", "demo_wf")]
     claimed = True
     diverge_is_violation = True    # every op is a deterministic documented function of (table, sources so far)
@@ -844,19 +970,23 @@ class C14(Prop):
                   "every Process* call ends as success-without-message or eslESYNTAX-with-message (never a crash or internal exception), rejected settings change nothing; VerifyConfig succeeds iff all requirements and incompatibilities hold; "
                   "IsUsed = not IsDefault and IsOn. The hand model is tied to the working tree by an exact differential run (12000 random tables x sources per quick run); a divergence or monitor failure is a concrete failing input.")
     level_note = ("Trusted: Lean kernel + propext/Classical.choice/Quot.sound; fidelity of the hand model (incl. its strtol/strtod/strtok/fgets models) is checked, not proved, by the differential run; "
-                  "'+/- prefixed booleans' clause is vacuous in this version (a '+' word is an argument: theorem plus_word_is_argument); well-formed tables only; reals restricted to <= 6 significant digits; "
+                  "'+/- prefixed booleans' clause is vacuous in this version (a '+' word is an argument: theorem plus_word_is_argument); history theorems for well-formed tables (ill-formed tables: Create / first-use theorems without hypothesis, IllFormed.lean); reals restricted to <= 6 significant digits; "
                   "integer, character and real range strings of the documented forms are proved to mean the intended bounds (reals: order of the denoted rationals; lower bounds written as plain decimal literals are proved to be read exactly; exponent spellings only by examples and the differential run).")
     trusted_base = ["hand model of esl_getopts.c (+ esl_str_IsInteger/IsReal, esl_strtok from easel.c) tied by exact differential run (h_getopts.c, ASan+UBSan build of the working tree)",
                     "Lean compiler/runtime for the executable driver", "gcc, glibc strtol/strtod/getenv/fgets"]
     assumptions = [
         "the statement's clause '+/- prefixed booleans set and unset' has no anchor in this version of esl_getopts.c or its documentation: a word starting with '+' is an ordinary command-line argument in code and model (generated and compared), so the clause is vacuous here",
-        "well-formed option tables only — checked on every generated table by the model driver (`wfStrictB`, proved to imply the theorems' hypothesis `WF`) (names '-c' or '--word', distinct; optlist elements resolve to the option of that exact name under process_optlist's first-prefix match; toggle lists name only boolean/string options; defaults satisfy their own type/range; string options have no range): ill-formed tables reach ESL_EXCEPTIONs by design",
+        "the history theorems (a)-(f) assume well-formed option tables — checked on every generated well-formed table by the model driver (`wfStrictB`, proved to imply the theorems' hypothesis `WF`) (names '-c' or '--word', distinct; optlist elements resolve to the option of that exact name under process_optlist's first-prefix match; toggle lists name only boolean/string options; defaults satisfy their own type/range; string options have no range): ill-formed tables reach ESL_EXCEPTIONs by design",
         "real values: decimal spellings with <= 6 significant digits and |exponent| <= 12, compared as exact rationals in the model (atof comparisons agree there); hex/inf/nan spellings are not modelled and not generated",
         "bytes are ASCII (isspace/char comparison on bytes >= 0x80 not modelled)",
         "in a config file an argument after a boolean option is ignored by the code (documented format: 'an option and an argument (if the option takes an argument)'); modelled as is",
         "a second esl_opt_ProcessSpoof on one object is generated since fix df08745 (eslEINVAL + message, object unchanged); before that fix its error path freed the first spoof's buffers",
         "memory leaks are not part of C14's statement; LeakSanitizer stays on in the harness run (support only): a leak in esl_getopts.c would be reported as a fault",
-        "allocation failure paths, esl_opt_DisplayHelp, esl_getopts_Dump, CreateOptsLine, SpoofCmdline, CreateDefaultApp are not modelled",
+        "set_option's allocation layer (do_alloc, valloc[], block reuse across config files, frees by the other sources / toggles / Reuse) is modelled byte by byte (Alloc.lean: malloc = junk without terminator, realloc keeps old bytes, strcpy keeps the tail) and g->valloc[] is compared exactly in every dump; the abstract model is proved to be its erasure",
+        "ill-formed tables (duplicate names, unknown names / empty elements / abbreviations in option lists, bad defaults, ranges on string options, unknown type codes, malformed range strings, names without '-') are generated too (8% of the cases, `create raw=1`) and compared exactly; with duplicate names the query calls answer for the first option of that name (model and harness both resolve by name)",
+        "esl_opt_DisplayHelp (pure function of the table; output compared byte for byte at widths around its three layout thresholds) and esl_opt_SpoofCmdline (after fix af97bd9) are modelled and compared exactly; the documentation's 'lines are not allowed to exceed textwidth' holds only up to +2 (the ' :' separator is not counted by the code when an option has a help string): proved bound textwidth+2, reported, not repaired (it would change the layout of every help page)",
+        "integer arguments and bounds beyond the int range are generated (2^31, 2^32+k, 2^63, 20+ digits): range check and esl_opt_GetInteger read them with the same atoi() = (int) strtol (clamp to long, low 32 bits), modelled exactly; monitor: a value that passed its range check satisfies the range as GetInteger returns it",
+        "allocation failure paths, esl_getopts_Dump, esl_getopts_CreateOptsLine, esl_getopts_CreateDefaultApp (calls exit()) are not modelled",
     ]
     rule = ("case = random well-formed option table (1-12 options) + 1-5 sources (cmdline/spoof/env/config file, occasionally Reuse in between) in random order, dumps of every query call in between, + VerifyConfig + full dump; "
             "non-trivial = at least one source returned ok and the final dump shows an option not at its default setter; distinct by output trace")
@@ -912,6 +1042,12 @@ class C14(Prop):
             {"name": "cfg-missing-arg-char", "ops": T + ["create", "cfg s=" + hx("-c\n"), "dump"], "sticky": n},
             {"name": "cfg-missing-arg-string", "ops": T + ["create", "cfg s=" + hx("--multi\n"), "dump"], "sticky": n},
         ]
+        # regression (fix 843fbc5): a malformed range starting with '=' made parse_rangestring read range[-1]; Create now fails
+        for ty, v, de in ((1, "n", "3"), (2, "x", "0.5"), (3, "c", "d")):
+            for rg in ("=%s<5" % v, "=%s<=5" % v, "=%s<" % v):
+                cs.append({"name": "ill-range-underread-%s" % v, "ops": [opt_line("-%s" % v, ty, de, None, rg), "create raw=1", "dump"], "sticky": 2})
+                cs.append({"name": "ill-range-underread-nodef-%s" % v, "ops": [opt_line("-%s" % v, ty, None, None, rg), "create raw=1",
+                                                                              W("prog", "-%s" % v, de), "dump", "cfg s=" + hx("-%s %s\n" % (v, de)), "dump"], "sticky": 2})
         # exhaustive sweep of one extra character before / after a valid number, and of every printable character as a
         # char argument (type checks must reject exactly what the documented syntax excludes)
         chars = [chr(c) for c in range(0x21, 0x7f) if chr(c) not in ","] + [" ", "\t"]
@@ -960,7 +1096,7 @@ class C14(Prop):
                 for k2 in ("cmd", "env", "cfg"):
                     for n1 in grp:
                         for n2 in grp:
-                            ops += [setter(k1, n1, arg), setter(k2, n2, arg), "verify", "dump", "reuse"]
+                            ops += [setter(k1, n1, arg), setter(k2, n2, arg), "verify", "dump"] + (["spoofcmd"] if "cmd" in (k1, k2) else []) + ["reuse"]
             cs.append({"name": "toggle-order-sweep" + grp[0], "ops": ops, "sticky": len(rows) + 1})
         # requirements and incompatibilities over every subset of options
         rows = [opt_line("-a", 0, None, None, None, None, "-b", None), opt_line("-b", 0), opt_line("-c", 0, None, None, None, None, None, "-a,-c"),
@@ -1002,6 +1138,21 @@ class C14(Prop):
                 for nm2 in names:
                     ops += [W("prog", nm2, x), "reuse"]
             cs.append({"name": "range-bounds-%s" % v, "ops": ops + ["dump"], "sticky": len(rows) + 1})
+        # integers beyond the int range: the range check and GetInteger read the same atoi() value
+        bigs = [str(x) for x in (2 ** 31 - 1, 2 ** 31, -2 ** 31, -2 ** 31 - 1, 2 ** 32 - 1, 2 ** 32, 2 ** 32 + 1, 2 ** 32 + 5, 2 ** 32 + 10, -2 ** 32 + 5, 2 ** 33,
+                                2 ** 63 - 1, 2 ** 63, 2 ** 63 + 5, -2 ** 63, -2 ** 63 - 1, 2 ** 64, 2 ** 64 + 5, 10 ** 20, 10 ** 20 + 5, -10 ** 25,
+                                4294967296 * 7 + 3, 99999999999999999999999999)] + ["+4294967301", "004294967301", "-4294967291"]
+        rows = [opt_line("--pos", 1, "1", None, "n>0"), opt_line("--dig", 1, "0", None, "0<=n<10"), opt_line("--neg", 1, "-1", None, "n<0"),
+                opt_line("--any", 1, "0"), opt_line("--le", 1, "0", None, "n<=2147483647"), opt_line("--ge", 1, "0", None, "n>=-2147483648"),
+                opt_line("--bigb", 1, "5", None, "0<n<4294967306"), opt_line("--bigb2", 1, "7", None, "-4294967291<=n<=4294967306"),
+                opt_line("--k", 1, "1", "C14BIGK", "n>0")]
+        ops = rows + ["create"]
+        for b in bigs:
+            ops += [W("prog", "--pos", b, "--dig=" + b, "--any", b), "dump", "reuse"]
+            for nm in ("--pos", "--dig", "--neg", "--any", "--le", "--ge", "--bigb", "--bigb2"):
+                ops += [W("prog", nm, b), "dump", "reuse"]
+            ops += ["cfg s=" + hx("--k %s\n--any %s\n" % (b, b)), "dump", "reuse", "env v=%s:%s" % (hx("C14BIGK"), hx(b)), "dump", "reuse"]
+        cs.append({"name": "bigint-sweep", "ops": ops, "sticky": len(rows) + 1})
         ops = tbl + ["create"]
         for ch in chars:
             ops += [W("prog", "--chr=" + ch), "reuse"]
@@ -1047,7 +1198,30 @@ class C14(Prop):
             if a.startswith("ok ") and b.startswith("ok ") and op in ("cmdline", "spoof", "env", "cfg", "verify"):
                 continue
             if a != b:
+                if op == "dump":
+                    d = self.describe_dump_difference(case, a, b)
+                    if d:
+                        return (i, d[0], d[1])
                 return (i, a, b)
+        return None
+
+    @staticmethod
+    def describe_dump_difference(case, a, b):
+        """name the first option whose dump field differs: what the implementation holds vs. what the documented rules (the model) give"""
+        ma, mb = re.search(r"opts=(\S*) valloc=(\S*)$", a), re.search(r"opts=(\S*) valloc=(\S*)$", b)
+        if not ma or not mb:
+            return None
+        names = [unhx(dict(x.split("=", 1) for x in o.split()[1:])["name"]) for o in case["ops"] if o.startswith("opt ")]
+        fa, fb = ma.group(1).split(";"), mb.group(1).split(";")
+        va, vb = ma.group(2).split(","), mb.group(2).split(",")
+        for k in range(min(len(fa), len(fb), len(names))):
+            if fa[k] != fb[k] or (k < len(va) and k < len(vb) and va[k] != vb[k]):
+                def show(f, v):
+                    p = f.split("/")
+                    val = p[0] if p[0] in ("~", "1") else repr(unhx(p[0]))
+                    return "value %s, setter %s, IsDefault/IsOn/IsUsed %s, getter %s, valloc %s" % (val, p[1], p[2], p[3], v)
+                return ("option %d (%s): the implementation has %s — not the last setter's value | full line: %s" % (k, names[k], show(fa[k], va[k] if k < len(va) else "?"), a),
+                        "option %d (%s): the documented rules (model) give %s | full line: %s" % (k, names[k], show(fb[k], vb[k] if k < len(vb) else "?"), b))
         return None
 
     # ------------------------------------------------------------------ monitors (on implementation output only)
@@ -1059,8 +1233,20 @@ class C14(Prop):
             except Exception:
                 pass
         cmd_failed = False
+        texts = []        # everything the sources processed since Create/Reuse said, decoded (for the provenance check of stored values)
+        ill = case.get("name", "").startswith("ill")      # deliberately ill-formed table: eslEINVAL answers are the documented ones
         for op, l in zip(case["ops"], out):
             w = op.split()[0]
+            if ill:
+                if w not in ("opt", "dump"):
+                    k = "ill-table %s:%s" % (w, l.split()[0] if l else "?")
+                    self._out_stats[k] = self._out_stats.get(k, 0) + 1
+                # never a crash (the engine reports faults); every call answers with a status; the exact answers are compared with the model
+                if w in ("cmdline", "spoof", "env", "cfg", "verify") and l.split()[0] not in ("ok", "esyntax", "einval", "nog"):
+                    return Failure("monitor", "%s on an ill-formed table returned %r" % (w, l))
+                if w == "create" and l not in ("ok", "einval"):
+                    return Failure("monitor", "Create on an ill-formed table returned %r" % l)
+                continue
             if w not in ("opt", "dump"):
                 k = "%s:%s" % (w, l.split()[0] if l else "?")
                 self._out_stats[k] = self._out_stats.get(k, 0) + 1
@@ -1072,6 +1258,18 @@ class C14(Prop):
                 return Failure("monitor", "Reuse returned %r" % l)
             if w == "reuse":
                 spoofed = False
+                texts = []
+            if w in ("cmdline", "spoof", "env", "cfg"):
+                try:
+                    kv = dict(x.split("=", 1) for x in op.split()[1:] if "=" in x)
+                    if w == "cmdline":
+                        texts += [unhx(x) for x in kv.get("w", "").split(",") if x]
+                    elif w == "env":
+                        texts += [unhx(p_.split(":")[1]) for p_ in kv.get("v", "").split(",") if ":" in p_]
+                    else:
+                        texts.append(unhx(kv.get("s", "-")) or "")
+                except Exception:
+                    pass
             if w == "spoof" and spoofed:
                 if l != "einval msg":
                     return Failure("monitor", "a second spoofed command line returned %r (expected eslEINVAL with a message): %s" % (l, op[:200]))
@@ -1084,15 +1282,79 @@ class C14(Prop):
                     return Failure("monitor", "%s returned status %r (neither success nor a usage error): %s" % (w, l, op[:200]))
                 if p[0] == "esyntax" and (len(p) < 2 or p[1] != "msg"):
                     return Failure("monitor", "%s reported a usage error without a message: %s" % (w, op[:200]))
+            elif w == "help":
+                p = l.split()
+                if p[0] not in ("ok", "einval") or (p[0] == "einval" and p[1:] != ["-"]):
+                    return Failure("monitor", "DisplayHelp returned %r: %s" % (l[:80], op))
+                if p[0] == "ok":
+                    f = self.check_help(case, op, unhx(p[1]))
+                    if f:
+                        return Failure("monitor", f)
+            elif w == "spoofcmd":
+                if not l.startswith("ok "):
+                    return Failure("monitor", "SpoofCmdline returned %r" % l[:80])
             elif w == "create" and l != "ok":
                 return Failure("monitor", "Create failed on a well-formed table: %r" % l)
             elif w == "dump":
-                f = self.check_dump(case, l, cmd_failed)
+                f = self.check_dump(case, l, cmd_failed, texts)
                 if f:
                     return Failure("monitor", f)
         return None
 
-    def check_dump(self, case, l, cmd_failed=False):
+    _r2 = re.compile(r"^(-?\d+)(<=?)n(<=?)(-?\d+)$")
+    _r1 = re.compile(r"^n(>=|>|<=|<)(-?\d+)$")
+
+    def int_range_violation(self, rg, n):
+        """a value that passed a range check satisfies the range as GetInteger returns it (documented range forms with
+        bounds inside the int range; other range strings are compared with the model only)"""
+        if not rg:
+            return None
+        m = self._r2.match(rg)
+        if m:
+            lo, hi = int(m.group(1)), int(m.group(4))
+            if abs(lo) >= 2 ** 31 or abs(hi) >= 2 ** 31:
+                return None
+            if not ((lo <= n if m.group(2) == "<=" else lo < n) and (n <= hi if m.group(3) == "<=" else n < hi)):
+                return "outside %s" % rg
+            return None
+        m = self._r1.match(rg)
+        if m:
+            b = int(m.group(2))
+            if abs(b) >= 2 ** 31:
+                return None
+            ok = {">=": n >= b, ">": n > b, "<=": n <= b, "<": n < b}[m.group(1)]
+            return None if ok else "outside %s" % rg
+        return None
+
+    def check_help(self, case, op, text):
+        """documented layout of esl_opt_DisplayHelp: one line per option of the docgroup, in table order, starting with the
+        indent and the option name; the ' :' separators are aligned; no line is wider than textwidth (+2: the separator
+        is not counted by the code's width computation)"""
+        kv = dict(x.split("=", 1) for x in op.split()[1:])
+        grp, indent, width = int(kv["grp"]), int(kv["indent"]), int(kv["width"])
+        rows = [dict(x.split("=", 1) for x in o.split()[1:]) for o in case["ops"] if o.startswith("opt ")]
+        sel = [r for r in rows if grp == 0 or int(r.get("grp", "0")) == grp]
+        lines = text.split("\n")
+        if lines[-1] != "":
+            return "help output does not end with a newline"
+        lines = lines[:-1]
+        if len(lines) != len(sel):
+            return "help prints %d lines for %d options of docgroup %d" % (len(lines), len(sel), grp)
+        ow = max([len(unhx(r["name"])) + (4 if int(r["type"]) != 0 else 0) for r in sel] + [0])
+        for ln, r in zip(lines, sel):
+            nm = unhx(r["name"])
+            if not ln.startswith(" " * indent + nm):
+                return "help line %r does not start with indent + option name %r" % (ln, nm)
+            if ln[indent + ow: indent + ow + 2] != " :":
+                return "help line %r: separator not at column %d" % (ln, indent + ow)
+            if len(ln) > width + 2:
+                return "help line of %d characters for textwidth %d" % (len(ln), width)
+            h = unhx(r["help"]) if "help" in r else "help"
+            if h and (" : " + h) not in ln:
+                return "help line %r lacks its help string" % ln
+        return None
+
+    def check_dump(self, case, l, cmd_failed=False, texts=None):
         m = re.match(r"ok argn=(-?\d+) args=(\S*) a0=(\S*) opts=(\S*) valloc=(\S*)$", l)
         if not m:
             return "malformed dump line %r" % l[:200]
@@ -1120,6 +1382,14 @@ class C14(Prop):
             if va == 0 and ty != 0 and int(setby) >= 3 and val != "~":
                 return "option %d: a value set by a config file is not in a block owned by the object (valloc=0)" % i
             isdef, ison, isused = flags[0] == "1", flags[1] == "1", flags[2] == "1"
+            # provenance: the stored string of an argument-taking option is its default or, literally, something a source
+            # processed since Create/Reuse said ("each option takes the value from the last source that set it")
+            if texts is not None and ty != 0 and val not in ("~", "1") and val != de:
+                sv = unhx(val)
+                if not any(sv in t_ for t_ in texts if t_ is not None):
+                    name = unhx(dict(x.split("=", 1) for x in [o for o in case["ops"] if o.startswith("opt ")][i].split()[1:])["name"])
+                    return ("value of option %d (%s) is not the last setter's value: it holds %r (setter code %s), which neither is its default %r "
+                            "nor was given by any source processed so far" % (i, name, sv, setby, unhx(de)))
             if ison != (val != "~"):
                 return "option %d: IsOn=%s but value %s" % (i, ison, val)
             if isused != ((not isdef) and ison):
@@ -1137,10 +1407,20 @@ class C14(Prop):
             elif ty == 1:
                 s = unhx(val)
                 try:
-                    if int(typed[1:]) != int(s.strip()):
-                        return "option %d: GetInteger %s for value %r" % (i, typed, s)
+                    n = int(s.strip())
                 except ValueError:
                     return "option %d: integer option holds %r" % (i, s)
+                got = int(typed[1:])
+                # what (int) strtol() makes of the digits: clamp to long, keep the low 32 bits
+                w = max(-2 ** 63, min(2 ** 63 - 1, n)) % 2 ** 32
+                w = w - 2 ** 32 if w >= 2 ** 31 else w
+                if got != w:
+                    return "option %d: GetInteger %s for value %r" % (i, typed, s)
+                rgs = [dict(x.split("=", 1) for x in o.split()[1:])["range"] for o in case["ops"] if o.startswith("opt ")]
+                f = self.int_range_violation(unhx(rgs[i]), got)
+                if f:
+                    return ("option %d holds %r, which passed the range check of %r, but esl_opt_GetInteger returns %d: %s"
+                            % (i, s, unhx(rgs[i]), got, f))
             elif ty == 3:
                 s = unhx(val)
                 if len(s) > 1 or int(typed[1:]) != (ord(s[0]) if s else 0):
